@@ -261,7 +261,7 @@ func seqScenario(p map[string]any) *Scenario {
 		}
 		emit := func(pr Problem) {
 			props := catProp[pr.Cat]
-			if tag14 && (pr.Cat == "lost" || pr.Cat == "phantom" || pr.Cat == "order") {
+			if tag14 && (pr.Cat == "lost" || pr.Cat == "phantom" || pr.Cat == "order" || pr.Cat == "name" || pr.Cat == "from") {
 				props = append(append([]string{}, props...), "C14")
 			}
 			if tag09 && (pr.Cat == "watchlist" || pr.Cat == "errclass" || pr.Cat == "phantom" || pr.Cat == "lost") {
